@@ -212,6 +212,10 @@ func (c *Ctx) feHistory(r *gen.Rand) {
 	}
 	steps := 30 + r.Intn(90)
 	var hist []string
+	// one element object lives through the whole history and is updated IN PLACE; the heavy
+	// operations are applied to it again and again (same pointer, different values)
+	acc := slot{new(big.Int).Set(pool[0].v), new(field.Element).Set(pool[0].e)}
+	inv, pw, sq := new(field.Element), new(field.Element), new(field.Element)
 	limbMax := func(e *field.Element) uint64 {
 		if !raw.ElementOK() {
 			return 0
@@ -287,6 +291,35 @@ func (c *Ctx) feHistory(r *gen.Rand) {
 			return
 		}
 		pool[r.Intn(len(pool))] = best
+		// in-place update of the long-lived object, then the heavy operations on it
+		switch s % 3 {
+		case 0:
+			acc.e.Add(acc.e, best.e)
+			acc.v = ref.FAdd(acc.v, best.v)
+		case 1:
+			acc.e.Multiply(acc.e, best.e)
+			acc.v = ref.FMul(acc.v, best.v)
+		default:
+			acc.e.Subtract(best.e, acc.e)
+			acc.v = ref.FSub(best.v, acc.v)
+		}
+		if s%6 == 5 {
+			inv.Invert(acc.e)
+			pw.Pow22523(acc.e)
+			_, wsq := sq.SqrtRatio(acc.e, pool[0].e)
+			wantR, wantSq := ref.SqrtRatioM1(acc.v, pool[0].v)
+			c.Eval(true, []byte("hist-inplace"), []byte(intHex(acc.v)))
+			c.Tally("in-place object: heavy operations re-applied")
+			if !c.checkFe(inv, ref.FInv(acc.v), "Invert of an object updated in place", det) ||
+				!c.checkFe(pw, ref.FPow(acc.v, pow22523Exp), "Pow22523 of an object updated in place", det) ||
+				!c.checkFe(sq, wantR, "SqrtRatio of an object updated in place", det) {
+				return
+			}
+			if wsq != wantSq {
+				c.Fail("SqrtRatio flag wrong on an object updated in place", det())
+				return
+			}
+		}
 	}
 	// finish: heavy ops on every pool member
 	for _, s := range pool {
